@@ -55,12 +55,28 @@ PREDS = {
     "ANY&~str": (P.ANY & ~P[str], lambda s: s.tp is not str),
     "Box": (Box, lambda s: s.tp is Box),
     "List[str]": (List[str], lambda s: s.tp == List[str]),
+    "None": (None, lambda s: s.tp is None),
 }
 KINDS = ("plain", "FIRST", "LAST", "decline")
 
 
 class Fail(Exception):
     pass
+
+
+class NoLoader(Exception):
+    """Reference: nothing in the recipe or among the builtin providers serves the request."""
+
+
+class Unservable:
+    """A class no builtin provider makes a loader for."""
+    __slots__ = ()
+
+    def __init__(self, *args):
+        pass
+
+
+UNSERVABLE = ("Undefined", typing.ForwardRef("Undefined"), Unservable)
 
 
 class Log:
@@ -119,7 +135,7 @@ def ref_loader(recipe, site, log):
             f = p.func(log)
             if p.kind == "plain":
                 return f
-            nxt = resolve(j + 1)
+            nxt = resolve(j + 1)   # NoLoader: the continuation consulted every later provider once and none serves -> nothing serves
             if p.kind == "FIRST":
                 return lambda x, f=f, nxt=nxt: nxt(f(x))
             return lambda x, f=f, nxt=nxt: f(nxt(x))
@@ -169,13 +185,23 @@ def ref_loader(recipe, site, log):
                 except KeyError:
                     raise Fail from None
             return ld
+        if tp is None:
+            def ld(x):
+                if x is not None:
+                    raise Fail
+                return x
+            return ld
+        if any(tp is u or tp == u for u in UNSERVABLE):
+            raise NoLoader
         raise AssertionError(tp)
 
     return resolve(0)
 
 
 REQUESTS = [
-    (str, "x"), (int, 5), (List[str], ["p", "q"]), (Dict[str, str], {"k": "v"}), (Box, {"a": "A", "b": "B", "n": 1}),
+    (str, "x"), (int, 5), (List[str], ["p", "q"]), (Dict[str, str], {"k": "v"}), (Box, {"a": "A", "b": "B", "n": 1}), (None, None),
+    # request types that cannot be normalised / that nothing serves: only the recipe can serve them, the router must not guess
+    ("Undefined", 7), (typing.ForwardRef("Undefined"), 7), (Unservable, 7),
 ]
 
 
@@ -186,11 +212,29 @@ def run_recipe(ctx, recipe, make_retort=None, label="plain"):
         providers = [p.provider(alog) for p in recipe]
         retort = make_retort(providers) if make_retort else Retort(recipe=providers, debug_trail=DebugTrail.DISABLE)
         created = attempt(retort.get_loader, tp)
-        ref = ref_loader(recipe, Site(tp), rlog)
+        try:
+            ref = ref_loader(recipe, Site(tp), rlog)
+        except NoLoader:
+            ref = None
         matching = sum(1 for p in recipe if p.matches(Site(tp)))
         ctx.evaluated((label, repr(recipe), repr(tp)), nontrivial=matching >= 2 or len(recipe) >= 2)
         ctx.count("recipes_x_requests")
         info = {"recipe": repr(recipe), "request": repr(tp), "variant": label}
+        if ref is None:
+            ctx.count("unservable_requests")
+            for v in RM.drain():
+                ctx.violation(f"router:{v['kind']}", f"recipe {recipe} request {tp!r}: route {v['request']} returned handler #{v['got']}, linear first match is #{v['expected']}", {**info, **v})
+            if created.kind == "ok":
+                ctx.violation("unservable-request-served", f"recipe {recipe} request {tp!r}: no provider of the recipe serves it (linear semantics), adaptix made a loader; calls {alog.calls}", info)
+            elif type(created.exc).__name__ != "ProviderNotFoundError":
+                ctx.violation(f"loader-creation-failed:{type(created.exc).__name__}", f"recipe {recipe} request {tp!r}: {created.exc!r}", info)
+            elif sorted(alog.consults) != sorted(rlog.consults):
+                chained_before = any(p.kind in ("FIRST", "LAST") and p.matches(Site(tp)) for p in recipe)
+                more_only = all(alog.consults.count(t) >= rlog.consults.count(t) for t in set(rlog.consults)) and set(alog.consults) == set(rlog.consults)
+                key = "provider-consulted-again-after-failed-chain-continuation" if chained_before and more_only else _key(recipe, "declining-consults")
+                ctx.violation(key, f"recipe {recipe} request {tp!r} (nothing serves it): declining providers consulted {sorted(alog.consults)}, once each would be {sorted(rlog.consults)}",
+                              {**info, "adaptix_consults": alog.consults, "reference_consults": rlog.consults})
+            continue
         if created.kind != "ok":
             ctx.violation(f"loader-creation-failed:{type(created.exc).__name__}", f"recipe {recipe} request {tp}: {created.exc!r}", info)
             continue
@@ -275,6 +319,8 @@ def run_case(ctx, rng, idx):
         run_recipe(ctx, recipe, lambda provs: Retort(recipe=[Retort(recipe=provs, debug_trail=DebugTrail.DISABLE)], debug_trail=DebugTrail.ALL, strict_coercion=False), "inner-retort")
     check_dumper_chain(ctx, rng)
     check_bound_inner_retort(ctx, rng)
+    for _ in range(3):
+        check_recursive_chain(ctx, rng)
 
 
 def check_dumper_chain(ctx, rng):
@@ -326,6 +372,75 @@ def check_bound_inner_retort(ctx, rng):
         ctx.violation("inner-retort-not-served-from-own-recipe", f"outer {outer_recipe} + bound(Box, inner {inner_recipe}): outer gives {got!r}, inner alone {want!r}",
                       {"inner": repr(inner_recipe), "outer": repr(outer_recipe)})
     RM.drain()
+
+
+@dataclass
+class RNode:
+    v: int
+    kids: List["RNode"]
+
+
+@dataclass
+class RLink:
+    v: int
+    next: typing.Optional["RLink"]
+
+
+def _tree(rng, depth):
+    return {"v": rng.randint(0, 9), "kids": [_tree(rng, depth - 1) for _ in range(rng.randint(1, 2) if depth > 0 else 0)]}
+
+
+def _count_nodes(t):
+    return 1 + sum(_count_nodes(k) for k in t["kids"])
+
+
+def check_recursive_chain(ctx, rng):  # noqa: C901
+    """Chain.FIRST / Chain.LAST on recursive types: the user function is composed exactly once at EVERY position the predicate
+    matches - the top level, and each position where the type closes its cycle (seeded change: the recursion stub was bound to the
+    un-chained continuation, so the function ran at the top level only)."""
+    side = rng.choice(["load", "dump"])
+    chain = rng.choice([Chain.FIRST, Chain.LAST])
+    shape = rng.choice(["tree", "link"])
+    calls = []
+
+    def f(x):
+        calls.append(1)
+        return x
+    if shape == "tree":
+        model = RNode
+        data = _tree(rng, rng.choice([1, 2, 3]))
+        n_nodes = _count_nodes(data)
+        pred_name, pred, per_root = rng.choice([("RNode", RNode, n_nodes), ("P[RNode].kids", P[RNode].kids, n_nodes), ("P[RNode].v", P[RNode].v, n_nodes), ("int", int, n_nodes)])
+    else:
+        model = RLink
+        n = rng.choice([1, 2, 4])
+        data = None
+        for i in range(n):
+            data = {"v": i, "next": data}
+        pred_name, pred, per_root = rng.choice([("RLink", RLink, n), ("P[RLink].next", P[RLink].next, n), ("P[RLink].v", P[RLink].v, n)])
+    root_name, hint, wrap, mult = rng.choice([
+        ("model", model, lambda d: d, 1), ("List", List[model], lambda d: [d, d], 2), ("Dict", Dict[str, model], lambda d: {"k": d}, 1),
+        ("Optional", typing.Optional[model], lambda d: d, 1), ("Tuple", typing.Tuple[model, int], lambda d: [d, 1], 1),
+    ])
+    expected = per_root * mult + (1 if pred is int and root_name == "Tuple" else 0)
+    mk = loader if side == "load" else dumper
+    retort = Retort(recipe=[mk(pred, f, chain)])
+    plain = Retort()
+    if side == "load":
+        got, want = attempt(retort.load, wrap(data), hint), attempt(plain.load, wrap(data), hint)
+    else:
+        obj = plain.load(wrap(data), hint)
+        got, want = attempt(retort.dump, obj, hint), attempt(plain.dump, obj, hint)
+    ctx.evaluated(("recursive-chain", side, repr(chain), shape, pred_name, root_name, repr(data)[:80]), nontrivial=True)
+    ctx.count("recursive_chains")
+    info = {"side": side, "chain": repr(chain), "predicate": pred_name, "root": root_name, "data": repr(data)[:300]}
+    if got.kind != "ok" or want.kind != "ok" or not strict_eq(got.value, want.value):
+        ctx.violation("recursive-chain-result-differs", f"{side} {root_name} of {shape} with {pred_name} {chain}: {got!r:.200} vs plain {want!r:.200}", info)
+    elif len(calls) != expected:
+        ctx.violation("chained-function-not-applied-once-per-position:recursive", f"{side} {root_name}[{shape}] with {mk.__name__}({pred_name}, f, {chain}): f ran {len(calls)} times, "
+                      f"the predicate matches {expected} positions of the datum", {**info, "calls": len(calls), "expected": expected})
+    for v in RM.drain():
+        ctx.violation(f"router:{v['kind']}", f"recursive chain {info}: {v}", v)
 
 
 def _witness_combiner(ctx):
